@@ -436,7 +436,7 @@ example : (INode.lit (.num (.dec .nan))).FinLits = false := by decide
 
 /-! ## `json.Marshal` succeeds on `Fin` values -/
 
-theorem Dec.normalize_fin (neg : Bool) (c : Nat) (e : Int) :
+theorem Dec.normalize_fin_C18B (neg : Bool) (c : Nat) (e : Int) :
     ∃ n' c' e', Dec.normalize (.fin neg c e) = .fin n' c' e' := by
   simp only [Dec.normalize]
   split
@@ -452,7 +452,7 @@ theorem Dec.marshalJSON_fin {d : Dec} (h : d.isSpecial = false) : ∃ b, d.marsh
     simp only [Dec.marshalJSON]
     split
     · exact ⟨_, rfl⟩
-    · obtain ⟨n', c', e', hn⟩ := Dec.normalize_fin neg c e
+    · obtain ⟨n', c', e', hn⟩ := Dec.normalize_fin_C18B neg c e
       rw [hn]
       simp only
       split
